@@ -225,6 +225,8 @@ def check_scan(prog, rep, m):
     f = m.funcs.get('_scan')
     if f is None:
         raise AnalysisIncomplete('_scan not found')
+    from ..inline import inline_view
+    f = inline_view(prog, f)      # follow-then-transform glue reads as if written in place
     entry = 'polygonize scan'
     follows = [n for n in f.own_nodes() if isinstance(n, ast.Assign) and isinstance(n.value, ast.Call) and short(n.value) == '_follow']
     pm = parent_map(f.node)
@@ -232,7 +234,8 @@ def check_scan(prog, rep, m):
     # on the N side of ANY pixel, so the scan may not stop when the last region's start pixel has been seen
     scans = [n for n in f.own_nodes() if isinstance(n, ast.For) and any(x in follows for x in ast.walk(n))]
     for lp in scans:
-        it = T(lp.iter)
+        from ..astutil import inline as _inl, straightline_env as _senv
+        it = T(_inl(lp.iter, _senv(f.node.body, upto=lp)))
         full = it in ('range(nx*ny)', 'range(0,nx*ny)', 'range(ny*nx)', 'range(len(regions))', 'range(regions.size)', 'range(regions.shape[0])')
         exits = [x for x in ast.walk(lp) if isinstance(x, (ast.Break, ast.Return))]
         rep.add('G5', f, entry, 'start-pixel scan: for %s in %s, %d early exits' % (T(lp.target), norm(lp.iter), len(exits)), lp.lineno,
@@ -304,10 +307,29 @@ def check_follow(prog, rep, m):
     ok = 'points[-1]=points[0]' in t and 'points=points.reshape((-1,2))' in t and 'points=np.empty(2*(npoints+1))' in t
     rep.add('G4', f, entry, 'ring closed: points[-1] = points[0] (one extra point allocated)', f.node.lineno, ok,
             'the last vertex of every ring must repeat the first')
-    hole_if = [n for n in f.own_nodes() if isinstance(n, ast.If) and T(n.test) == 'hole']
-    ok = len(hole_if) >= 1 and {T(s) for s in hole_if[0].body} == {'forward=-1', 'left=-nx'} and {T(s) for s in hole_if[0].orelse} == {'forward=1', 'left=nx'}
+    # start orientation, evaluated on the statements that precede the walk (if/else or conditional expressions)
+    ok = None
+    why = ''
+    outer = [n for n in f.node.body if isinstance(n, ast.For)]
+    if outer:
+        pre = []
+        for st in outer[0].body:
+            if isinstance(st, ast.While):
+                break
+            pre.append(st)
+        got = {}
+        try:
+            for hv in (True, False):
+                sp = Spec(prog, {'hole': ('const', hv), 'nx': Rat.sym('nx'), 'ij': Rat.sym('ij')}, m)
+                for st in pre:
+                    sp.it.stmt(st)
+                got[hv] = (sp.it.as_scalar(sp.it.env.get('forward')), sp.it.as_scalar(sp.it.env.get('left')))
+            ok = got[True] == (Rat.const(-1), -Rat.sym('nx')) and got[False] == (Rat.const(1), Rat.sym('nx'))
+            why = 'hole: %s, exterior: %s' % (got[True], got[False])
+        except (AnalysisIncomplete, KeyError, TypeError) as e:
+            ok, why = None, str(e)
     rep.add('G4', f, entry, 'start orientation: exterior facing E (left = N), hole facing W (left = S)', f.node.lineno, ok,
-            'exteriors are followed anticlockwise and holes clockwise')
+            'exteriors are followed anticlockwise and holes clockwise; ' + why)
     # corner offsets by direction
     pt = [n for n in f.own_nodes() if isinstance(n, ast.If) and T(n.test) == 'forward==-1' and {T(s) for s in n.body} == {'i+=1', 'j+=1'}]
     ok = False
@@ -354,7 +376,13 @@ def check_misc(prog, rep, m):
     ok = 'connectivity_8=connectivity==8' in t and any(isinstance(n, ast.If) and T(n.test) == 'connectivitynotin(4,8)' for n in pub.own_nodes())
     rep.add('G7', pub, entry, 'connectivity validated; connectivity_8 = (connectivity == 8)', pub.node.lineno, ok, '')
     c = [x for x in calls(pub.node) if short(x) == '_polygonize_numpy']
-    ok = len(c) == 1 and [T(a) for a in c[0].args] == ['raster.data', 'mask_data', 'connectivity_8', 'transform']
+    bound = {}
+    if len(c) == 1:
+        for p_, a_ in zip(pn.params, c[0].args):
+            bound[p_] = T(a_)
+        for k_ in c[0].keywords:
+            bound[k_.arg] = T(k_.value)
+    ok = len(c) == 1 and [bound.get(p_) for p_ in pn.params[:4]] == ['raster.data', 'mask_data', 'connectivity_8', 'transform']
     rep.add('G7', pub, entry, '_polygonize_numpy(raster.data, mask_data, connectivity_8, transform)', pub.node.lineno, ok, '')
     sc = [x for x in calls(pn.node) if short(x) == '_scan']
     ok = len(sc) == 1 and [T(a) for a in sc[0].args] == ['values', 'mask', 'connectivity_8', 'transform', 'nx', 'ny']
